@@ -50,9 +50,10 @@ TransformCall ==
 
 \* C12
 BlockCase ==
-  LET ok == Acceptable(R.m, R.n)
-      errs == Errors(R.m, R.n)
-  IN /\ Agree("block.hashAbstraction", Len(R.m) >= 1 /\ RootMatches(R.m, R.n), R.rootSame)
+  LET self == Has(R, "commit") /\ R.commit = "self"       \* the header commits to the list m itself
+      ok == IF self THEN AcceptableCommitted(R.m) ELSE Acceptable(R.m, R.n)
+      errs == IF self THEN ErrorsCommitted(R.m) ELSE Errors(R.m, R.n)
+  IN /\ Agree("block.hashAbstraction", IF self THEN Len(R.m) >= 1 ELSE Len(R.m) >= 1 /\ RootMatches(R.m, R.n), R.rootSame)
      /\ Agree("block.noTrap", TRUE, R.out.verdict # "trap" /\ R.out.admitted # "trap")
      /\ Agree("block.accepted", ok, R.out.verdict = "ok")
      /\ Agree("block.admitted", IF ok THEN "yes" ELSE "no", R.out.admitted)
